@@ -22,6 +22,7 @@ warnings.filterwarnings('ignore')
 import numpy as np
 import pandas as pd
 
+import common
 from common import ts, ts_in, secs, f2b
 
 from qstrader import settings
@@ -276,7 +277,7 @@ def run_session(case, data_dir=None, data_source=None, keep=False):
         rec['target_allocations'] = [[secs(d['Date']), [[k, fnum(v)] for k, v in d.items() if k != 'Date']] for d in bt.target_allocations]
         rec['cash'] = fnum(pf.cash)
         rec['hold'] = [[a, int(v['quantity'])] for a, v in pf.portfolio_to_dict().items()]
-        rec['pending'] = [[o.asset, int(o.quantity)] for o in list(bt.broker.open_orders[bt.portfolio_id].queue)]
+        rec['pending'] = [[o.asset, int(o.quantity)] for o in common.queued_orders(bt.broker.open_orders[bt.portfolio_id])]
         if rec['err'] is None:
             try:
                 eqdf = bt.get_equity_curve()
